@@ -327,7 +327,7 @@ func c16ConcurrentAll(c *Ctx) {
 				li.top.OnSample(0, baseRTT, 40, false)
 				li.top.OnSample(0, baseRTT, 40, false)
 				return li.top
-			}, ops, labels), mc.Options{PreemptBound: pb, DevBound: 0})
+			}, ops, labels), mc.Options{PreemptBound: pb, DevBound: 0, NoCache: true})
 		}
 	}
 	setOps := []func(core.Limit){
@@ -336,5 +336,5 @@ func c16ConcurrentAll(c *Ctx) {
 		smp(baseRTT, 4, false),
 	}
 	c.Explore(c16Concurrent("settable", func() core.Limit { return limit.NewSettableLimit("s", 3, nil) }, setOps,
-		[]string{"SetLimit(5)", "SetLimit(7)", "OnSample"}), mc.Options{PreemptBound: pb})
+		[]string{"SetLimit(5)", "SetLimit(7)", "OnSample"}), mc.Options{PreemptBound: pb, NoCache: true})
 }
